@@ -107,6 +107,13 @@ var methodCarriers = []carrier{
 	{"VM", "VM", "VM{A: x}", "v.A", "struct", true},
 }
 
+// clashCarriers: not in the rotation; parameter types of ToError's f under which a parameter that
+// carries one of the generated function's own names (err, success) still type-checks there
+var clashCarriers = []carrier{
+	{"errv", "error", "error(idErr(x))", "int(v.(idErr))", "iface", true},
+	{"boolv", "bool", "true", "1", "bool", false},
+}
+
 // conv: a result of type src handed to a parameter of the assignable, not identical, type dst.
 // The stage decodes its parameter as "which value of src does it hold": 0 = the zero value of src
 // (for a nillable src inside an interface: a non-nil interface holding the typed nil), id >= 1,
@@ -119,7 +126,7 @@ type conv struct {
 }
 
 func carrierByName(n string) carrier {
-	for _, c := range append(append([]carrier{}, carriers...), methodCarriers...) {
+	for _, c := range append(append(append([]carrier{}, carriers...), methodCarriers...), clashCarriers...) {
 		if c.name == n {
 			return c
 		}
@@ -819,6 +826,186 @@ func (g *gen) toerror(id, np, nout int) {
 	g.meta.Count(fmt.Sprintf("toerror/params=%d,outs=%d", np, nout))
 }
 
+// ---- toerror: parameters of f named like the variables the generated function declares ----
+// deriveToError(err, f) returns a closure that has f's parameters under f's own parameter names and
+// declares out0.., success next to them, so the names the generator chooses for itself (err, f,
+// success, out<i>) must stay apart from them.  A clashParam is one parameter of f: its name and how
+// its type is chosen so that the shadowed text would still type-check:
+//   "error"  the type error (a parameter err of this type can be returned in place of the supplied error)
+//   "self"   a named type RF<id> whose underlying type is f's own signature (a parameter f of this
+//            type can be called on the parameters in place of the supplied f)
+//   "bool"   bool (success)
+//   "out<j>" the type of result j of f
+//   "any"    the next carrier of the rotation
+type clashParam struct {
+	name string
+	typ  string
+}
+
+type clashShape struct {
+	ps   []clashParam
+	nout int
+}
+
+// Every shape below stays well-typed when a name is shadowed, so that a generator that lets a
+// name clash is seen by what the closure does; shapes whose clash cannot compile are in namesPackage.
+var clashShapes = []clashShape{
+	// the supplied error and a parameter called err (err_, both) of type error
+	{[]clashParam{{"err", "error"}}, 0},
+	{[]clashParam{{"err", "error"}}, 1},
+	{[]clashParam{{"err", "error"}}, 2},
+	{[]clashParam{{"err_", "error"}}, 1},
+	{[]clashParam{{"err", "error"}, {"err_", "error"}}, 1},
+	{[]clashParam{{"err_", "error"}, {"err", "error"}, {"err__", "error"}}, 0},
+	{[]clashParam{{"a0", "any"}, {"err", "error"}}, 1},
+	{[]clashParam{{"err", "error"}, {"a1", "any"}}, 2},
+	// the supplied function and a parameter called f that can be called on the same arguments
+	{[]clashParam{{"f", "self"}}, 0},
+	{[]clashParam{{"f", "self"}}, 1},
+	{[]clashParam{{"f", "self"}, {"f_", "self"}}, 1},
+	{[]clashParam{{"a0", "any"}, {"f", "self"}}, 2},
+	{[]clashParam{{"f_", "self"}, {"a1", "any"}}, 1},
+	// success and out<i>
+	{[]clashParam{{"success", "bool"}}, 0},
+	{[]clashParam{{"success", "bool"}}, 1},
+	{[]clashParam{{"success", "bool"}, {"success_", "bool"}}, 2},
+	{[]clashParam{{"out0", "out0"}}, 1},
+	{[]clashParam{{"out0", "out0"}, {"out1", "out1"}}, 3},
+	{[]clashParam{{"out1", "out1"}, {"out0", "out0"}, {"out0_", "out0"}}, 2},
+	{[]clashParam{{"out0", "out0"}, {"out2", "out2"}}, 3},
+	// everything at once
+	{[]clashParam{{"err", "error"}, {"f", "self"}, {"success", "bool"}, {"out0", "out0"}}, 2},
+	{[]clashParam{{"success", "bool"}, {"err", "error"}, {"err_", "error"}, {"f", "self"}}, 1},
+}
+
+func (g *gen) toerrorClash(id int, sh clashShape) {
+	np, nout := len(sh.ps), sh.nout
+	rf := fmt.Sprintf("RF%d", id)
+	var ins, outs []carrier
+	self := false
+	if !g.fresh("toerror", func() string {
+		outs = g.nexts(nout)
+		ins = make([]carrier, np)
+		self = false
+		for i, p := range sh.ps {
+			switch {
+			case p.typ == "error":
+				ins[i] = carrierByName("errv")
+			case p.typ == "bool":
+				ins[i] = carrierByName("boolv")
+			case p.typ == "self":
+				ins[i] = carrier{rf, rf, "", "", "func", true}
+				self = true
+			case strings.HasPrefix(p.typ, "out"):
+				ins[i] = outs[atoiGo(p.typ[3:])]
+			default:
+				ins[i] = g.next()
+			}
+		}
+		return strings.Join(typs(ins), ",") + ";" + strings.Join(typs(outs), ",")
+	}) {
+		return
+	}
+	fn := fmt.Sprintf("toerr_%d", id)
+	pl := make([]string, np)
+	pnames := make([]string, np)
+	for i, p := range sh.ps {
+		pl[i] = p.name + " " + ins[i].typ
+		pnames[i] = p.name
+	}
+	fres := results(typs(outs), "bool")
+	if id%2 == 1 {
+		// named results, called like the variables the closure declares for them where the
+		// parameters leave those names free (parameters and results share one scope)
+		used := map[string]bool{}
+		for _, n := range pnames {
+			used[n] = true
+		}
+		pick := func(cands ...string) string {
+			for _, c := range cands {
+				if !used[c] {
+					used[c] = true
+					return c
+				}
+			}
+			panic("no result name")
+		}
+		var nr []string
+		for i, t := range typs(outs) {
+			nr = append(nr, pick(fmt.Sprintf("out%d", i), "err", "f", fmt.Sprintf("res%d", i))+" "+t)
+		}
+		fres = "(" + strings.Join(append(nr, pick("success", "err", "isOk")+" bool"), ", ") + ")"
+		g.meta.Count("toerror/named-results")
+	}
+	if self {
+		fmt.Fprintf(&g.calls, "type %s func(%s) %s\n\n", rf, strings.Join(pl, ", "), fres)
+	}
+	fmt.Fprintf(&g.calls, "func %s(e error, f func(%s) %s) func(%s) %s {\n\treturn deriveToError_%d(e, f)\n}\n",
+		fn, strings.Join(pl, ", "), fres, strings.Join(typs(ins), ", "), results(typs(outs), "error"), id)
+	if self {
+		// a value of RF<id> with id x: a function that records that it was called; read by calling it in probe mode
+		var zs, qs []string
+		for j, c := range outs {
+			zs = append(zs, fmt.Sprintf("z%d %s", j, c.typ))
+		}
+		for i := range ins {
+			qs = append(qs, fmt.Sprintf("q%d", i))
+		}
+		fmt.Fprintf(&g.drv, "\nfunc enc_%s(x int) %s {\n\tif x == 0 {\n\t\treturn nil\n\t}\n\treturn func(%s) (%s) {\n\t\trfLast = x\n\t\tif !rfProbe {\n\t\t\trfCalls = append(rfCalls, x)\n\t\t}\n\t\treturn\n\t}\n}\n",
+			rf, rf, pparams("p", plain(ins)), strings.Join(append(zs, "ok bool"), ", "))
+		fmt.Fprintf(&g.drv, "func obs_%s(v %s) int {\n\tif v == nil {\n\t\treturn 0\n\t}\n", rf, rf)
+		for i, c := range ins {
+			fmt.Fprintf(&g.drv, "\tvar q%d %s\n", i, c.typ)
+		}
+		fmt.Fprintf(&g.drv, "\trfProbe, rfLast = true, -3\n\tv(%s)\n\trfProbe = false\n\treturn rfLast\n}\n", strings.Join(qs, ", "))
+	}
+	fmt.Fprintf(&g.drv, "\nfunc init() {\n\ttoerrAr[%d] = [2]int{%d, %d}\n\ttoerrNames[%d] = \"(%s)\"\n\ttoerrT[%d] = func(args []int, success bool, etag int) (res []int, et int, log [][]int) {\n",
+		id, np, nout, id, strings.Join(pnames, " "), id)
+	fmt.Fprintf(&g.drv, "\t\trfCalls = nil\n")
+	fmt.Fprintf(&g.drv, "\t\tf := %s\n", stageFunc(0, false, plain(ins), outs, "success", "bool", "0"))
+	fmt.Fprintf(&g.drv, "\t\t%s := %s(sentinel(etag), f)(%s)\n\t\tres = %s\n\t\tet = tagOf(err)\n",
+		lhs(names("r", nout), "err"), fn, encArgs(ins), obsList("r", outs))
+	// a call of an argument (a function value handed to f, not f itself) shows in the log as (-9 id)
+	fmt.Fprintf(&g.drv, "\t\tfor _, x := range rfCalls {\n\t\t\tlog = append(log, []int{-9, x})\n\t\t}\n\t\treturn\n\t}\n}\n")
+	args := func(zero bool) []int {
+		l := g.randArgs(np)
+		for i, c := range ins {
+			if zero {
+				l[i] = 0
+			} else if c.name == "boolv" {
+				l[i] = 1
+			}
+		}
+		return l
+	}
+	for _, sc := range []int{1, 0} {
+		for _, t := range []int{1, 2, 3, 0} {
+			fmt.Fprintf(&g.cases, "toerror %d %s %d %d\n", id, csv(args(false)), sc, t)
+			g.ncase++
+		}
+	}
+	// zero-valued arguments: a nil error, a nil func, false
+	fmt.Fprintf(&g.cases, "toerror %d %s 1 1\ntoerror %d %s 0 2\n", id, csv(args(true)), id, csv(args(true)))
+	g.ncase += 2
+	if np >= 2 {
+		// the first / the last argument alone is the zero value
+		a := args(false)
+		a[0] = 0
+		b := args(false)
+		b[np-1] = 0
+		fmt.Fprintf(&g.cases, "toerror %d %s 0 1\ntoerror %d %s 0 2\n", id, csv(a), id, csv(b))
+		g.ncase += 2
+	}
+	g.meta.Count(fmt.Sprintf("toerror/params=%d,outs=%d", np, nout))
+	g.meta.Count("toerror/parameter-names=" + strings.Join(pnames, ","))
+}
+
+func atoiGo(s string) int {
+	n := 0
+	fmt.Sscan(s, &n)
+	return n
+}
+
 func csv(l []int) string {
 	if len(l) == 0 {
 		return "-"
@@ -867,7 +1054,7 @@ func Run(cfg hx.Config) (*hx.Meta, error) {
 	g.convs = convs()
 	g.calls.WriteString("package main\n\n" + typeDecls)
 	g.drv.WriteString(driverHeader)
-	for _, c := range append(append([]carrier{}, carriers...), methodCarriers...) {
+	for _, c := range append(append(append([]carrier{}, carriers...), methodCarriers...), clashCarriers...) {
 		// id 0 is the zero value of the type, ids >= 1 are non-zero values
 		fmt.Fprintf(&g.drv, "func enc_%s(x int) %s {\n\tif x == 0 {\n\t\tvar z %s\n\t\treturn z\n\t}\n\treturn %s\n}\nfunc dec_%s(v %s) int { return %s }\nfunc obs_%s(v %s) int {\n\tif isZero(&v) {\n\t\treturn 0\n\t}\n\treturn dec_%s(v)\n}\n",
 			c.name, c.typ, c.typ, c.enc, c.name, c.typ, c.dec, c.name, c.typ, c.name)
@@ -995,6 +1182,11 @@ func Run(cfg hx.Config) (*hx.Meta, error) {
 			}
 		}
 	}
+	// parameters of f that are called err, f, success, out<i> (with and without trailing underscores)
+	for _, sh := range clashShapes {
+		g.toerrorClash(id, sh)
+		id++
+	}
 	meta.Count(fmt.Sprintf("instances=%d (compose %d)", id, ncomp))
 
 	dir := filepath.Join(cfg.Work, "c16pkg")
@@ -1021,6 +1213,9 @@ func Run(cfg hx.Config) (*hx.Meta, error) {
 	// the exotic-type package: zero literals + vet only
 	zeroObs, err := zeroPackage(cfg, meta)
 	if err != nil {
+		return nil, err
+	}
+	if err := namesPackage(cfg, meta); err != nil {
 		return nil, err
 	}
 	lits := extractZeros(string(genSrc), g.zeroSlots, meta)
@@ -1055,7 +1250,7 @@ func Run(cfg hx.Config) (*hx.Meta, error) {
 			switch k {
 			case "(compose":
 				min = 70
-			case "(traverse", "(toerror":
+			case "(traverse", "(toerror", "(toerrorp":
 				min = 44
 			}
 			if len(l) > min && !seen[k] && !strings.Contains(l, ") 0 (") {
@@ -1177,6 +1372,61 @@ func zeroPackage(cfg hx.Config, meta *hx.Meta) ([]string, error) {
 	return lines, nil
 }
 
+// ---- parameters called err, f, success, out<i> of types under which a clash cannot compile:
+// generate + vet only ----
+const namesSrc = `package main
+
+func n0(e error, f func(e2 error, err string) (int, bool)) func(error, string) (int, error) {
+	return deriveToErrorN0(e, f)
+}
+func n1(e error, f func(f int) (int, bool)) func(int) (int, error) {
+	return deriveToErrorN1(e, f)
+}
+func n2(e error, f func(success string, ok bool) (int, bool)) func(string, bool) (int, error) {
+	return deriveToErrorN2(e, f)
+}
+func n3(e error, f func(out0 string, out2 int) (a, b, c int, ok bool)) func(string, int) (int, int, int, error) {
+	return deriveToErrorN3(e, f)
+}
+func n4(e error, f func(out1 int, out0 string, out0_ bool) (int, string, bool)) func(int, string, bool) (int, string, error) {
+	return deriveToErrorN4(e, f)
+}
+func n5(e error, f func(f int, err string, success float64, f_ bool) (int, bool)) func(int, string, float64, bool) (int, error) {
+	return deriveToErrorN5(e, f)
+}
+func n6(e error, f func(err_ error, err int) bool) func(error, int) error {
+	return deriveToErrorN6(e, f)
+}
+
+func main() {}
+`
+
+func namesPackage(cfg hx.Config, meta *hx.Meta) error {
+	dir := filepath.Join(cfg.Work, "c16names")
+	if err := hx.Module(dir); err != nil {
+		return err
+	}
+	if err := hx.WriteFiles(dir, map[string]string{"n.go": namesSrc}); err != nil {
+		return err
+	}
+	meta.Packages++
+	meta.GoderiveRuns++
+	meta.Count("toerror/names-package")
+	gr := hx.Goderive(cfg.Goderive, dir, ".")
+	if gr.Exit != 0 {
+		meta.AddDirect(hx.Direct{Class: "c16-generate-failed", What: "goderive failed on the C16 parameter-names package",
+			Files: map[string]string{"n.go": namesSrc}, Cmd: "goderive .", Output: hx.Truncate(gr.Out, 4000)})
+		return nil
+	}
+	v := hx.GoVet(dir, "")
+	if v.Exit != 0 {
+		genSrc, _ := os.ReadFile(filepath.Join(dir, "derived.gen.go"))
+		meta.AddDirect(hx.Direct{Class: "c16-names-ill-typed", What: "deriveToError over parameters called err, f, success, out<i> does not type-check: " + firstLines(v.Out, 3),
+			Files: map[string]string{"n.go": namesSrc, "derived.gen.go": hx.Truncate(string(genSrc), 20000)}, Cmd: "goderive . && go vet .", Output: hx.Truncate(v.Out, 4000)})
+	}
+	return nil
+}
+
 // extractZeros finds, in every listed generated function, the first `if err.. != nil { return Z..., err }`
 // and classifies the literals Z against the result types the harness asked for.
 func extractZeros(src string, want map[string][]slot, meta *hx.Meta) []string {
@@ -1282,6 +1532,16 @@ func (*perr) Error() string { return "boom" }
 
 var errC error = (*perr)(nil)
 
+// an error value that carries an id: an argument of type error
+type idErr int
+
+func (e idErr) Error() string { return "boom" }
+
+// function-valued arguments of ToError's f: who was called (outside probe mode), who was probed
+var rfCalls []int
+var rfLast int
+var rfProbe bool
+
 func sentinel(t int) error {
 	switch t {
 	case 1:
@@ -1346,6 +1606,7 @@ var joinAr = map[int]int{}
 var travT = map[int]func(ids []int, isNil bool, tbl map[int]int) (res string, et int, log []int){}
 var toerrT = map[int]func(args []int, success bool, etag int) (res []int, et int, log [][]int){}
 var toerrAr = map[int][2]int{}
+var toerrNames = map[int]string{}
 
 func ints(l []int) string {
 	var b strings.Builder
@@ -1443,6 +1704,9 @@ func main() {
 			case "toerror":
 				args, sc, t := parseCSV(p[2]), atoi(p[3]), atoi(p[4])
 				head = fmt.Sprintf("toerror %d %s %d %d", toerrAr[id][1], ints(args), sc, t)
+				if nm, ok := toerrNames[id]; ok {
+					head = fmt.Sprintf("toerrorp %d %s %s %d %d", toerrAr[id][1], nm, ints(args), sc, t)
+				}
 				res, et, log := toerrT[id](args, sc != 0, t)
 				fmt.Fprintf(w, "(%s (ret %s %d %s))\n", head, ints(res), et, intss(log))
 			}
